@@ -1,6 +1,626 @@
-//! C06 — not implemented yet.
-use crate::ctx::Ctx;
+//! C06 — built-in combiners are mergeable: any split and merge order equals the fold.
+//!
+//! Request: `COMB <name> <k> <all-values> | <postfix program>`   answer: `<tree-output> <fold-output> <tree-accumulator>`
+//!   name ∈ count sum min max avg fsum dcount dset topk   (k only used by topk, else 0)
+//!   program tokens: `A:<vals>` create()+add_input*, `B:<vals>` build_from_group, `P:<vals>` add_input*
+//!   onto the top accumulator, `M` merge(&mut second, top).
+//! Real side: the real `CombineFn::{create,add_input,merge,finish}` / `LiftableCombiner::build_from_group`
+//! called in exactly that shape, under catch_unwind. Oracle: both outputs equal an independent
+//! reference (count / iterator sum / min / max / sum÷len / BTreeSet / sort-descending-and-truncate).
+
+use crate::ctx::{Ctx, guarded};
+use ironbeam::collection::{CombineFn, Count, LiftableCombiner};
+use ironbeam::combiners::{AverageF64, DistinctCount, DistinctSet, Max, Min, Sum, TopK};
+use std::collections::BTreeSet;
+
+#[derive(Clone, Debug)]
+enum Op<V> {
+    A(Vec<V>),
+    B(Vec<V>),
+    P(Vec<V>),
+    M,
+}
+
+/// run the postfix program on the REAL combiner
+fn run_prog<V: Clone + Send + Sync + 'static, A, O, C>(c: &C, prog: &[Op<V>]) -> A
+where
+    C: CombineFn<V, A, O> + LiftableCombiner<V, A, O>,
+{
+    let mut st: Vec<A> = Vec::new();
+    for op in prog {
+        match op {
+            Op::A(xs) => {
+                let mut acc = c.create();
+                for x in xs {
+                    c.add_input(&mut acc, x.clone());
+                }
+                st.push(acc);
+            }
+            Op::B(xs) => st.push(c.build_from_group(xs)),
+            Op::P(xs) => {
+                let acc = st.last_mut().expect("P on empty stack");
+                for x in xs {
+                    c.add_input(acc, x.clone());
+                }
+            }
+            Op::M => {
+                let r = st.pop().expect("M on empty stack");
+                let l = st.last_mut().expect("M on one-element stack");
+                c.merge(l, r);
+            }
+        }
+    }
+    assert_eq!(st.len(), 1, "program must leave one accumulator");
+    st.pop().unwrap()
+}
+
+/// (tree output, fold output, canonical form of the tree's final accumulator before `finish`)
+fn run_case<V: Clone + Send + Sync + 'static, A, O, C>(
+    c: &C,
+    prog: &[Op<V>],
+    all: &[V],
+    sh: impl Fn(O) -> String,
+    sa: impl Fn(&A) -> String,
+) -> (String, String, String)
+where
+    C: CombineFn<V, A, O> + LiftableCombiner<V, A, O>,
+{
+    let (t, a) = match guarded(|| run_prog(c, prog)) {
+        Ok(acc) => {
+            let a = sa(&acc);
+            (guarded(|| c.finish(acc)).map_or("PANIC".to_string(), &sh), a)
+        }
+        Err(_) => ("PANIC".to_string(), "PANIC".to_string()),
+    };
+    let f = guarded(|| run_fold(c, all)).map_or("PANIC".to_string(), &sh);
+    (t, f, a)
+}
+
+fn run_fold<V: Clone + Send + Sync + 'static, A, O, C>(c: &C, all: &[V]) -> O
+where
+    C: CombineFn<V, A, O>,
+{
+    let mut acc = c.create();
+    for x in all {
+        c.add_input(&mut acc, x.clone());
+    }
+    c.finish(acc)
+}
+
+/// decimal with 3 fractional digits, exact: value = m / 1000
+#[derive(Clone, Copy, Debug)]
+struct Milli(i64);
+impl Milli {
+    fn f(self) -> f64 {
+        self.0 as f64 / 1000.0
+    }
+    fn s(self) -> String {
+        let neg = self.0 < 0;
+        let a = self.0.unsigned_abs();
+        if a % 1000 == 0 {
+            format!("{}{}", if neg { "-" } else { "" }, a / 1000)
+        } else {
+            format!("{}{}.{:03}", if neg { "-" } else { "" }, a / 1000, a % 1000)
+        }
+    }
+}
+
+fn enc<V>(xs: &[V], s: &dyn Fn(&V) -> String) -> String {
+    xs.iter().map(|x| s(x)).collect::<Vec<_>>().join(",")
+}
+fn enc_all<V>(xs: &[V], s: &dyn Fn(&V) -> String) -> String {
+    if xs.is_empty() { "-".into() } else { enc(xs, s) }
+}
+fn enc_prog<V>(prog: &[Op<V>], s: &dyn Fn(&V) -> String) -> String {
+    prog.iter()
+        .map(|op| match op {
+            Op::A(xs) => format!("A:{}", enc(xs, s)),
+            Op::B(xs) => format!("B:{}", enc(xs, s)),
+            Op::P(xs) => format!("P:{}", enc(xs, s)),
+            Op::M => "M".to_string(),
+        })
+        .collect::<Vec<_>>()
+        .join(" ")
+}
+fn show_ints(v: &[i64]) -> String {
+    if v.is_empty() { "-".into() } else { v.iter().map(|x| x.to_string()).collect::<Vec<_>>().join(",") }
+}
+fn show_f(x: f64) -> String {
+    format!("F{x:?}")
+}
+fn close(a: f64, b: f64) -> bool {
+    (a - b).abs() <= 1e-9 * 1.0f64.max(a.abs()).max(b.abs())
+}
+
+#[derive(Clone, Copy, PartialEq, Eq, Debug)]
+enum Name {
+    Count,
+    Sum,
+    Min,
+    Max,
+    Avg,
+    FSum,
+    DCount,
+    DSet,
+    TopK,
+}
+const INT_NAMES: [Name; 7] = [Name::Count, Name::Sum, Name::Min, Name::Max, Name::DCount, Name::DSet, Name::TopK];
+impl Name {
+    fn s(self) -> &'static str {
+        match self {
+            Name::Count => "count",
+            Name::Sum => "sum",
+            Name::Min => "min",
+            Name::Max => "max",
+            Name::Avg => "avg",
+            Name::FSum => "fsum",
+            Name::DCount => "dcount",
+            Name::DSet => "dset",
+            Name::TopK => "topk",
+        }
+    }
+}
+
+fn flat<V: Clone>(prog: &[Op<V>]) -> Vec<V> {
+    let mut v = vec![];
+    for op in prog {
+        match op {
+            Op::A(x) | Op::B(x) | Op::P(x) => v.extend(x.iter().cloned()),
+            Op::M => {}
+        }
+    }
+    v
+}
+
+/// emit one case for an integer-valued combiner. `all` is the whole input in original order; the
+/// program's leaves hold the same multiset of values.
+fn one_int(cx: &mut Ctx, name: Name, k: usize, all: &[i64], prog: &[Op<i64>]) {
+    let s = |x: &i64| x.to_string();
+    let req = format!("COMB {} {} {} | {}", name.s(), k, enc_all(all, &s), enc_prog(prog, &s));
+    // reference values (independent of the implementation and the model)
+    let n = all.len();
+    let mut desc = all.to_vec();
+    desc.sort_by(|a, b| b.cmp(a));
+    let set: BTreeSet<i64> = all.iter().copied().collect();
+    let want: String = match name {
+        Name::Count => n.to_string(),
+        Name::Sum => all.iter().sum::<i64>().to_string(),
+        Name::Min => desc.last().map_or("PANIC".into(), |x| x.to_string()),
+        Name::Max => desc.first().map_or("PANIC".into(), |x| x.to_string()),
+        Name::DCount => set.len().to_string(),
+        Name::DSet => show_ints(&set.iter().copied().collect::<Vec<_>>()),
+        Name::TopK => {
+            let mut t = desc.clone();
+            t.truncate(k);
+            show_ints(&t)
+        }
+        _ => unreachable!(),
+    };
+    let sorted_set = |h: &std::collections::HashSet<i64>| {
+        let mut v: Vec<i64> = h.iter().copied().collect();
+        v.sort();
+        format!("a={}", show_ints(&v))
+    };
+    let (t, f, a) = match name {
+        Name::Count => run_case(&Count, prog, all, |o: u64| o.to_string(), |a: &u64| format!("a={a}")),
+        Name::Sum => run_case(&Sum::<i64>::new(), prog, all, |o: i64| o.to_string(), |a: &i64| format!("a={a}")),
+        Name::Min => run_case(&Min::<i64>::new(), prog, all, |o: i64| o.to_string(), |a: &Option<i64>| {
+            a.map_or("a=none".to_string(), |x| format!("a={x}"))
+        }),
+        Name::Max => run_case(&Max::<i64>::new(), prog, all, |o: i64| o.to_string(), |a: &Option<i64>| {
+            a.map_or("a=none".to_string(), |x| format!("a={x}"))
+        }),
+        Name::DCount => run_case(&DistinctCount::<i64>::new(), prog, all, |o: u64| o.to_string(), sorted_set),
+        Name::DSet => {
+            let sh = |mut o: Vec<i64>| {
+                o.sort(); // HashSet iteration order is unspecified: canonical form
+                show_ints(&o)
+            };
+            run_case(&DistinctSet::<i64>::new(), prog, all, sh, sorted_set)
+        }
+        Name::TopK => run_case(
+            &TopK::<i64>::new(k),
+            prog,
+            all,
+            |o: Vec<i64>| show_ints(&o),
+            |h: &std::collections::BinaryHeap<std::cmp::Reverse<i64>>| {
+                let mut v: Vec<i64> = h.iter().map(|r| r.0).collect();
+                v.sort(); // heap contents, ascending
+                format!("a={}", show_ints(&v))
+            },
+        ),
+        _ => unreachable!(),
+    };
+    let nparts = prog.iter().filter(|o| !matches!(o, Op::M)).count();
+    let nt = n >= 2 && nparts >= 2;
+    let i = cx.case(req, format!("{t} {f} {a}"), nt);
+    stats(cx, name, k, n, prog);
+    if t != want {
+        cx.oracle_fail(i, &format!("{}-tree-differs-from-reference", name.s()), format!("tree output {t}, reference {want}"));
+    }
+    if f != want {
+        cx.oracle_fail(i, &format!("{}-fold-differs-from-reference", name.s()), format!("fold output {f}, reference {want}"));
+    }
+}
+
+fn one_float(cx: &mut Ctx, name: Name, all: &[Milli], prog: &[Op<Milli>]) {
+    let s = |x: &Milli| x.s();
+    let req = format!("COMB {} 0 {} | {}", name.s(), enc_all(all, &s), enc_prog(prog, &s));
+    let fall: Vec<f64> = all.iter().map(|m| m.f()).collect();
+    let fprog: Vec<Op<f64>> = prog
+        .iter()
+        .map(|op| match op {
+            Op::A(x) => Op::A(x.iter().map(|m| m.f()).collect()),
+            Op::B(x) => Op::B(x.iter().map(|m| m.f()).collect()),
+            Op::P(x) => Op::P(x.iter().map(|m| m.f()).collect()),
+            Op::M => Op::M,
+        })
+        .collect();
+    // reference in exact integer arithmetic (milli-units), converted once
+    let total: i64 = all.iter().map(|m| m.0).sum();
+    let want = match name {
+        Name::FSum => total as f64 / 1000.0,
+        Name::Avg => {
+            if all.is_empty() { 0.0 } else { total as f64 / 1000.0 / all.len() as f64 }
+        }
+        _ => unreachable!(),
+    };
+    let shf = |o: f64| show_f(o);
+    let (ts, fs, a) = match name {
+        Name::FSum => run_case(&Sum::<f64>::new(), &fprog, &fall, shf, |a: &f64| show_f(*a)),
+        Name::Avg => run_case(&AverageF64, &fprog, &fall, shf, |a: &(f64, u64)| format!("{} n={}", show_f(a.0), a.1)),
+        _ => unreachable!(),
+    };
+    let parse = |s: &str| -> Result<f64, String> { s.strip_prefix('F').and_then(|x| x.parse::<f64>().ok()).ok_or_else(|| s.to_string()) };
+    let (t, f) = (parse(&ts), parse(&fs));
+    let sh = |r: &Result<f64, String>| r.as_ref().map_or("PANIC".to_string(), |x| show_f(*x));
+    let nparts = prog.iter().filter(|o| !matches!(o, Op::M)).count();
+    let nt = all.len() >= 2 && nparts >= 2;
+    let i = cx.case(req, format!("{ts} {fs} {a}"), nt);
+    stats(cx, name, 0, all.len(), prog);
+    if !t.as_ref().map_or(false, |x| close(*x, want)) {
+        cx.oracle_fail(i, &format!("{}-tree-differs-from-reference", name.s()), format!("tree output {}, reference {want:?}", sh(&t)));
+    }
+    if !f.as_ref().map_or(false, |x| close(*x, want)) {
+        cx.oracle_fail(i, &format!("{}-fold-differs-from-reference", name.s()), format!("fold output {}, reference {want:?}", sh(&f)));
+    }
+}
+
+fn stats<V>(cx: &mut Ctx, name: Name, k: usize, n: usize, prog: &[Op<V>]) {
+    cx.count(&format!("comb:{}", name.s()));
+    let parts = prog.iter().filter(|o| !matches!(o, Op::M)).count();
+    cx.count(&format!("parts:{}", parts.min(9)));
+    cx.count(&format!("n:{}", if n <= 5 { n.to_string() } else if n <= 20 { "6-20".into() } else { ">20".into() }));
+    if prog.iter().any(|o| matches!(o, Op::B(_))) {
+        cx.count("has:build_from_group");
+    }
+    if prog.iter().any(|o| matches!(o, Op::P(_))) {
+        cx.count("has:add-after-merge");
+    }
+    if prog.iter().any(|o| matches!(o, Op::A(x) | Op::B(x) if x.is_empty())) {
+        cx.count("has:empty-part");
+    }
+    if name == Name::TopK {
+        cx.count(if k == 0 { "topk:k=0" } else if k > n { "topk:k>n" } else if k == n { "topk:k=n" } else { "topk:0<k<n" });
+        // which merge path the real code takes at the root is decided by sizes; record a proxy
+        let mut sizes: Vec<usize> = vec![];
+        let mut path_fast = 0;
+        let mut path_slow = 0;
+        for op in prog {
+            match op {
+                Op::A(x) | Op::B(x) => sizes.push(x.len().min(k)),
+                Op::P(x) => {
+                    if let Some(t) = sizes.last_mut() {
+                        *t = (*t + x.len()).min(k)
+                    }
+                }
+                Op::M => {
+                    let r = sizes.pop().unwrap_or(0);
+                    let l = sizes.pop().unwrap_or(0);
+                    if l + r <= k { path_fast += 1 } else { path_slow += 1 }
+                    sizes.push((l + r).min(k));
+                }
+            }
+        }
+        if path_fast > 0 {
+            cx.count("topk:merge-extend-path");
+        }
+        if path_slow > 0 {
+            cx.count("topk:merge-two-pointer-path");
+        }
+    }
+}
+
+// ---------- program construction ----------
+
+/// all ordered splits of `0..n` into exactly `p` contiguous (possibly empty) parts: cut positions
+fn splits(n: usize, p: usize) -> Vec<Vec<usize>> {
+    // non-decreasing cut vectors c_1..c_{p-1} in 0..=n
+    fn rec(n: usize, left: usize, lo: usize, cur: &mut Vec<usize>, out: &mut Vec<Vec<usize>>) {
+        if left == 0 {
+            out.push(cur.clone());
+            return;
+        }
+        for c in lo..=n {
+            cur.push(c);
+            rec(n, left - 1, c, cur, out);
+            cur.pop();
+        }
+    }
+    let mut out = vec![];
+    rec(n, p - 1, 0, &mut vec![], &mut out);
+    out
+}
+fn cut<V: Clone>(all: &[V], cuts: &[usize]) -> Vec<Vec<V>> {
+    let mut parts = vec![];
+    let mut prev = 0;
+    for &c in cuts {
+        parts.push(all[prev..c].to_vec());
+        prev = c;
+    }
+    parts.push(all[prev..].to_vec());
+    parts
+}
+
+/// binary tree shapes over `p` leaves as postfix skeletons: `false` = next leaf, `true` = merge
+fn shapes(p: usize) -> Vec<Vec<bool>> {
+    if p == 1 {
+        return vec![vec![false]];
+    }
+    let mut out = vec![];
+    for l in 1..p {
+        for a in shapes(l) {
+            for b in shapes(p - l) {
+                let mut s = a.clone();
+                s.extend(b.iter().copied());
+                s.push(true);
+                out.push(s);
+            }
+        }
+    }
+    out
+}
+fn left_deep(p: usize) -> Vec<bool> {
+    let mut s = vec![false];
+    for _ in 1..p {
+        s.push(false);
+        s.push(true);
+    }
+    s
+}
+fn right_deep(p: usize) -> Vec<bool> {
+    let mut s = vec![false; p];
+    s.extend(std::iter::repeat(true).take(p - 1));
+    s
+}
+fn random_shape(cx: &mut Ctx, p: usize) -> Vec<bool> {
+    if p == 1 {
+        return vec![false];
+    }
+    let l = 1 + cx.rng.below(p - 1);
+    let mut s = random_shape(cx, l);
+    s.extend(random_shape(cx, p - l));
+    s.push(true);
+    s
+}
+fn permutations(p: usize) -> Vec<Vec<usize>> {
+    fn rec(rest: &mut Vec<usize>, cur: &mut Vec<usize>, out: &mut Vec<Vec<usize>>) {
+        if rest.is_empty() {
+            out.push(cur.clone());
+            return;
+        }
+        for i in 0..rest.len() {
+            let x = rest.remove(i);
+            cur.push(x);
+            rec(rest, cur, out);
+            cur.pop();
+            rest.insert(i, x);
+        }
+    }
+    let mut out = vec![];
+    rec(&mut (0..p).collect(), &mut vec![], &mut out);
+    out
+}
+/// leaves in the given order, `lifted` bit i = leaf i built via build_from_group
+fn assemble<V: Clone>(parts: &[Vec<V>], order: &[usize], lifted: u32, shape: &[bool]) -> Vec<Op<V>> {
+    let mut prog = vec![];
+    let mut next = 0;
+    for &m in shape {
+        if m {
+            prog.push(Op::M);
+        } else {
+            let idx = order[next];
+            let xs = parts[idx].clone();
+            prog.push(if lifted >> next & 1 == 1 { Op::B(xs) } else { Op::A(xs) });
+            next += 1;
+        }
+    }
+    prog
+}
+fn shuffle(cx: &mut Ctx, v: &mut Vec<usize>) {
+    for i in (1..v.len()).rev() {
+        let j = cx.rng.below(i + 1);
+        v.swap(i, j);
+    }
+}
+
+fn all_seqs(alpha: &[i64], max_len: usize) -> Vec<Vec<i64>> {
+    let mut out: Vec<Vec<i64>> = vec![vec![]];
+    let mut frontier: Vec<Vec<i64>> = vec![vec![]];
+    for _ in 0..max_len {
+        let mut next = vec![];
+        for s in &frontier {
+            for x in alpha {
+                let mut t = s.clone();
+                t.push(*x);
+                next.push(t);
+            }
+        }
+        out.extend(next.iter().cloned());
+        frontier = next;
+    }
+    out
+}
+
+fn milli(all: &[i64]) -> Vec<Milli> {
+    // 0,1,2 ↦ 0.1, 1.5, -2.25 : one value that is inexact in binary, mixed signs
+    all.iter().map(|x| Milli(match x { 0 => 100, 1 => 1500, _ => -2250 })).collect()
+}
+fn map_prog<V, W>(prog: &[Op<V>], f: &dyn Fn(&[V]) -> Vec<W>) -> Vec<Op<W>> {
+    prog.iter()
+        .map(|op| match op {
+            Op::A(x) => Op::A(f(x)),
+            Op::B(x) => Op::B(f(x)),
+            Op::P(x) => Op::P(f(x)),
+            Op::M => Op::M,
+        })
+        .collect()
+}
+
+/// every combiner on one (sequence, program); TopK for every k in 0..=n+1
+fn every_combiner(cx: &mut Ctx, all: &[i64], prog: &[Op<i64>]) {
+    for name in INT_NAMES {
+        if name == Name::TopK {
+            for k in 0..=all.len() + 1 {
+                one_int(cx, name, k, all, prog);
+            }
+        } else {
+            one_int(cx, name, 0, all, prog);
+        }
+    }
+    let fall = milli(all);
+    let fprog = map_prog(prog, &|x: &[i64]| milli(x));
+    one_float(cx, Name::Avg, &fall, &fprog);
+    one_float(cx, Name::FSum, &fall, &fprog);
+}
+
+/// size of an exhaustive scope (NOT scaled by the search tier's 10x budget: it is an exponent;
+/// the search tier re-runs the quick scope with other seeds for the seeded shapes and a larger random block)
+fn scope(cx: &Ctx, quick: usize, thorough: usize) -> usize {
+    match cx.tier {
+        crate::ctx::Tier::Thorough => thorough,
+        _ => quick,
+    }
+}
 
 pub fn run(cx: &mut Ctx) {
-    cx.notes.push("C06: harness not implemented".to_string());
+    // (1) corpus: design witnesses (ties across the two-pointer merge, len sum == k, k = 0, empty parts,
+    //     Min/Max on nothing, merge with fresh accumulators on either side)
+    let w = |a: &[i64]| a.to_vec();
+    one_int(cx, Name::TopK, 2, &[1, 2, 2, 1], &[Op::A(w(&[1, 2])), Op::A(w(&[2, 1])), Op::M]);
+    one_int(cx, Name::TopK, 2, &[1, 2], &[Op::A(w(&[1])), Op::B(w(&[2])), Op::M]);
+    one_int(cx, Name::TopK, 3, &[5, 1, 4, 2], &[Op::A(w(&[5, 1])), Op::A(w(&[4, 2])), Op::M]);
+    one_int(cx, Name::TopK, 0, &[1, 2], &[Op::A(w(&[1])), Op::B(w(&[2])), Op::M]);
+    one_int(cx, Name::TopK, 1, &[3], &[Op::A(vec![]), Op::A(w(&[3])), Op::M, Op::A(vec![]), Op::M]);
+    one_int(cx, Name::TopK, 2, &[3, 1, 2, 0], &[Op::A(w(&[3, 1])), Op::A(w(&[2])), Op::M, Op::P(w(&[0]))]);
+    one_int(cx, Name::Min, 0, &[], &[Op::A(vec![]), Op::B(vec![]), Op::M]);
+    one_int(cx, Name::Max, 0, &[], &[Op::A(vec![])]);
+    one_int(cx, Name::Min, 0, &[2, 1], &[Op::A(vec![]), Op::A(w(&[2, 1])), Op::M]);
+    one_int(cx, Name::Max, 0, &[1, 2], &[Op::A(w(&[1, 2])), Op::B(vec![]), Op::M]);
+    one_int(cx, Name::DSet, 0, &[2, 1, 2], &[Op::A(vec![]), Op::B(w(&[2, 1, 2])), Op::M]);
+    one_float(cx, Name::Avg, &[], &[Op::A(vec![]), Op::B(vec![]), Op::M]);
+
+    // (2a) exhaustive small scope — the property's quantifier: every sequence of length ≤ N over 3 values ×
+    // every ordered split into 1..=4 (possibly empty) parts × TopK k ∈ 0..=n+1 × {engine order (left-deep,
+    // leaves in input order, all add_input), a seeded random shape/leaf order/lifted mask}
+    let nmax = scope(cx, 5, 6);
+    let seqs = all_seqs(&[0, 1, 2], nmax);
+    let mut count_a = 0usize;
+    for all in &seqs {
+        for p in 1..=4usize {
+            for cuts in splits(all.len(), p) {
+                let parts = cut(all, &cuts);
+                let id: Vec<usize> = (0..p).collect();
+                let prog1 = assemble(&parts, &id, 0, &left_deep(p));
+                every_combiner(cx, all, &prog1);
+                let mut order = id.clone();
+                shuffle(cx, &mut order);
+                let mask = cx.rng.below(1 << p) as u32;
+                let shape = if cx.rng.chance(1, 3) { right_deep(p) } else { random_shape(cx, p) };
+                let prog2 = assemble(&parts, &order, mask, &shape);
+                every_combiner(cx, all, &prog2);
+                count_a += 2;
+            }
+        }
+    }
+    cx.exhaustive_blocks.push(format!(
+        "all sequences of length <= {nmax} over {{0,1,2}} x all ordered splits into 1..4 possibly-empty parts x {{left-deep in input order via add_input; one seeded random tree shape + leaf order + build_from_group mask}} x all 9 combiners (TopK: every k in 0..n+1): {count_a} (sequence,split,tree) triples"
+    ));
+
+    // (2b) exhaustive in tree shape × leaf order × lifted mask on a smaller scope
+    let nb = scope(cx, 3, 4);
+    let seqs_b = all_seqs(&[0, 1, 2], nb);
+    let mut count_b = 0usize;
+    for all in &seqs_b {
+        for p in 1..=3usize {
+            let shs = shapes(p);
+            let perms = permutations(p);
+            for cuts in splits(all.len(), p) {
+                let parts = cut(all, &cuts);
+                for shape in &shs {
+                    for order in &perms {
+                        for mask in 0..(1u32 << p) {
+                            let prog = assemble(&parts, order, mask, shape);
+                            every_combiner(cx, all, &prog);
+                            count_b += 1;
+                        }
+                    }
+                }
+            }
+        }
+    }
+    cx.exhaustive_blocks.push(format!(
+        "all sequences of length <= {nb} over {{0,1,2}} x all ordered splits into 1..3 possibly-empty parts x ALL binary tree shapes x ALL leaf orders x ALL build_from_group masks x all 9 combiners (TopK: every k in 0..n+1): {count_b} programs"
+    ));
+
+    // (3) random larger cases
+    let rounds = cx.budget(1500, 30000);
+    for _ in 0..rounds {
+        let n = if cx.rng.chance(1, 10) { cx.rng.below(200) } else { cx.rng.below(24) };
+        let dom = *cx.rng.pick(&[1i64, 2, 3, 5, 10, 1000, 1_000_000_000]);
+        let all: Vec<i64> = (0..n).map(|_| cx.rng.range(-dom, dom)).collect();
+        let p = 1 + cx.rng.below(8);
+        let mut cuts: Vec<usize> = (0..p - 1).map(|_| cx.rng.below(n + 1)).collect();
+        cuts.sort();
+        let parts = cut(&all, &cuts);
+        let mut order: Vec<usize> = (0..p).collect();
+        if cx.rng.chance(2, 3) {
+            shuffle(cx, &mut order);
+        }
+        let mask = cx.rng.next_u64() as u32;
+        let shape = match cx.rng.below(4) {
+            0 => left_deep(p),
+            1 => right_deep(p),
+            _ => random_shape(cx, p),
+        };
+        let mut prog = assemble(&parts, &order, mask, &shape);
+        let mut all2 = all.clone();
+        // sometimes keep adding after a merge (the accumulator a merge returns must still be a valid one)
+        if cx.rng.chance(1, 3) {
+            let extra: Vec<i64> = (0..cx.rng.below(4)).map(|_| cx.rng.range(-dom, dom)).collect();
+            all2.extend(extra.iter().copied());
+            let pos = prog.len();
+            prog.insert(pos, Op::P(extra));
+        }
+        debug_assert_eq!(
+            { let mut a = flat(&prog); a.sort(); a },
+            { let mut b = all2.clone(); b.sort(); b }
+        );
+        let name = *cx.rng.pick(&INT_NAMES);
+        for name in [name, Name::TopK] {
+            let k = match cx.rng.below(6) {
+                0 => 0,
+                1 => all2.len(),
+                2 => all2.len() + 1,
+                3 => 1,
+                _ => cx.rng.below(all2.len() + 2),
+            };
+            one_int(cx, name, if name == Name::TopK { k } else { 0 }, &all2, &prog);
+        }
+        // float-valued: decimals with three fractional digits, magnitude ≤ 1000
+        let fall: Vec<Milli> = all2.iter().map(|x| Milli((x.wrapping_mul(7919)) % 1_000_000)).collect();
+        let fprog = map_prog(&prog, &|x: &[i64]| x.iter().map(|x| Milli((x.wrapping_mul(7919)) % 1_000_000)).collect());
+        let fname = if cx.rng.chance(1, 2) { Name::Avg } else { Name::FSum };
+        one_float(cx, fname, &fall, &fprog);
+    }
 }
